@@ -113,18 +113,21 @@ Qed.
 Definition nv (t : ttree) (id : Z * Z) : Z := get2 (tt_nodes t) (fst id) (snd id) 0.
 Definition nl (t : ttree) (id : Z * Z) : Z := get2 (tt_low t) (fst id) (snd id) 0.
 Definition nk (t : ttree) (id : Z * Z) : bool := get2 (tt_known t) (fst id) (snd id) false.
+Definition nu (t : ttree) (id : Z * Z) : bool := get2 (tt_unset t) (fst id) (snd id) false.
 
-(* the three arrays have the same shape *)
+(* the four arrays have the same shape *)
 Definition same_shapes (t : ttree) : Prop :=
-  shape (tt_low t) = shape (tt_nodes t) /\ shape (tt_known t) = shape (tt_nodes t).
+  shape (tt_low t) = shape (tt_nodes t) /\ shape (tt_known t) = shape (tt_nodes t) /\
+  shape (tt_unset t) = shape (tt_nodes t).
 
 Definition vid (t : ttree) (id : Z * Z) : Prop := valid2 (tt_nodes t) (fst id) (snd id) = true.
 
 Lemma valid_id_vid : forall t id, same_shapes t -> (tt_valid_id t id = true <-> vid t id).
 Proof.
-  intros t id [H1 H2]. unfold tt_valid_id, vid.
+  intros t id [H1 [H2 H3]]. unfold tt_valid_id, vid.
   rewrite (valid2_shape (tt_low t) (tt_nodes t)) by exact H1.
   rewrite (valid2_shape (tt_known t) (tt_nodes t)) by exact H2.
+  rewrite (valid2_shape (tt_unset t) (tt_nodes t)) by exact H3.
   destruct (valid2 (tt_nodes t) (fst id) (snd id)); cbn; split; auto.
 Qed.
 
@@ -167,13 +170,13 @@ Proof.
   set (w := if bad then 1 else w0). set (h := if bad then 1 else h0).
   assert (Hwh : 1 <= w /\ 1 <= h).
   { unfold w, h, bad. destruct (Z.leb_spec w0 0); destruct (Z.leb_spec h0 0); cbn [orb]; lia. }
-  exists (tt_dims 64 w h). unfold wf_dims. cbn [tt_w tt_h tt_lw tt_nodes tt_low tt_known].
+  exists (tt_dims 64 w h). unfold wf_dims. cbn [tt_w tt_h tt_lw tt_nodes tt_low tt_known tt_unset].
   split; [apply tt_dims_halving|]. split; [reflexivity|].
   split.
   { change 64%nat with (S 63). cbn [tt_dims]. eexists; eexists; split; [reflexivity|]. cbn [fst snd]. split; reflexivity. }
   split; [lia|]. split; [lia|].
   split; [apply repeat_shape|].
-  unfold same_shapes. cbn [tt_nodes tt_low tt_known]. rewrite !repeat_shape. split; reflexivity.
+  unfold same_shapes. cbn [tt_nodes tt_low tt_known tt_unset]. rewrite !repeat_shape. repeat split; reflexivity.
 Qed.
 
 Lemma map_shape : forall {A B} (f : A -> B) (l : list (list A)), shape (map (map f) l) = shape l.
@@ -181,8 +184,8 @@ Proof. intros. unfold shape. rewrite map_map. apply map_ext. intros. apply map_l
 
 Lemma tt_reset_wf : forall t, wf_tree t -> wf_tree (tt_reset t).
 Proof.
-  intros t [dims [H1 [H2 [H3 [H4 [H5 [H6 [H7 H8]]]]]]]]. exists dims. unfold wf_dims, tt_reset, same_shapes.
-  cbn [tt_w tt_h tt_lw tt_nodes tt_low tt_known]. rewrite !map_shape.
+  intros t [dims [H1 [H2 [H3 [H4 [H5 [H6 [H7 [H8 H9]]]]]]]]]. exists dims. unfold wf_dims, tt_reset, same_shapes.
+  cbn [tt_w tt_h tt_lw tt_nodes tt_low tt_known tt_unset]. rewrite !map_shape.
   repeat split; try assumption; congruence.
 Qed.
 
